@@ -3,6 +3,7 @@ package proxy
 import (
 	"fmt"
 	"net"
+	"strconv"
 	"strings"
 	"time"
 
@@ -113,8 +114,10 @@ func (h *handshakeSessionHandler) handleHandshake(handshake *packet.Handshake, p
 		}
 	}
 
+	// JoinHostPort brackets a host that contains colons (IPv6 literal, TCPShield real-ip data),
+	// so the port can be split off again; "%s:%d" glued it to such hosts for good.
 	vHost := netutil.NewAddr(
-		fmt.Sprintf("%s:%d", handshake.ServerAddress, handshake.Port),
+		net.JoinHostPort(handshake.ServerAddress, strconv.Itoa(handshake.Port)),
 		h.conn.LocalAddr().Network(),
 	)
 	handshakeIntent := handshake.Intent()
